@@ -84,6 +84,10 @@ for _n, _b in (("ArithmeticError", "Exception"), ("OverflowError", "ArithmeticEr
     _exc(_n, _b)
 for _n in ("KeyboardInterrupt", "SystemExit", "GeneratorExit"):
     _exc(_n, "BaseException")
+_exc("Warning", "Exception")
+for _n in ("UserWarning", "DeprecationWarning", "RuntimeWarning", "FutureWarning", "PendingDeprecationWarning", "SyntaxWarning",
+           "ImportWarning", "UnicodeWarning", "BytesWarning", "ResourceWarning", "EncodingWarning"):
+    _exc(_n, "Warning")
 
 
 class LibFn(Obj):
